@@ -468,6 +468,7 @@ func runC04Full(c *Ctx) {
 	checkHandleConflicts(c, p, "R04.3")
 	checkExitCodes(c, p, "R04.4")
 	checkItemIdentity(c, p, "R04.6")
+	checkItemKeyInjective(c, p, "R04.7")
 	checkFirstSteps(c, p, "R04.5")
 	checkLR1Steps(c, p, "R04.5")
 	checkItemSetOps(c, p, "R04.5")
